@@ -1,7 +1,9 @@
 package main
 
 import (
+	"context"
 	"fmt"
+	"os"
 	"go/types"
 	"sort"
 	"strings"
@@ -107,6 +109,8 @@ func (vc *FnVC) generate() {
 		}
 		vc.runBlock(b, bst)
 	}
+	vc.curBlock, vc.curInstr = nil, nil
+	vc.emitAxioms()
 }
 
 // incomingEdges lists the non-back edges into b with their conditions.
@@ -203,7 +207,24 @@ func (vc *FnVC) mergeStates(b *ssa.BasicBlock, es []edge) *State {
 			sameEpoch = false
 		}
 	}
-	st := &State{ep: map[string]int{}, comp: map[string]string{}}
+	if !sameEpoch {
+		// states that went through a havoc on one side: drop the edges that the assumptions
+		// make infeasible (cheap quantifier-free check) before blurring the rest
+		var live []edge
+		for _, e := range es {
+			if !vc.infeasible(e.cond) {
+				live = append(live, e)
+			}
+		}
+		if len(live) > 0 && len(live) < len(es) {
+			es = live
+			if len(es) == 1 {
+				return vc.out[es[0].from].clone()
+			}
+			return vc.mergeStates(b, es)
+		}
+	}
+	st := &State{ep: map[string]int{}, comp: map[string]string{}, base: map[string]string{}}
 	for k, v := range first.ep {
 		st.ep[k] = v
 	}
@@ -264,6 +285,21 @@ func (vc *FnVC) mergeStates(b *ssa.BasicBlock, es []edge) *State {
 		}
 		st.comp[k] = n
 	}
+	// old-region bases: kept when every incoming state agrees, else the merged version
+	for _, k := range ks {
+		b0 := vc.curBase(vc.out[es[0].from], k)
+		same := true
+		for _, e := range es[1:] {
+			if vc.curBase(vc.out[e.from], k) != b0 {
+				same = false
+			}
+		}
+		if same {
+			st.base[k] = b0
+		} else if v, ok := st.comp[k]; ok {
+			st.base[k] = v
+		}
+	}
 	return st
 }
 
@@ -283,6 +319,18 @@ func (vc *FnVC) enterLoop(h *ssa.BasicBlock, li *loopInfo, st *State) {
 		alloc := vc.alloc(st)
 		for _, c := range mods {
 			if _, ok := vc.compSort[c]; !ok {
+				continue
+			}
+			if vc.onlyFreshWrites(c) {
+				// every write to this component in this function is proved (frame obligations)
+				// to hit an object allocated here: the old region keeps its base version
+				b := vc.curBase(st, c)
+				n := vc.havocComp(st, c)
+				st.base[c] = b
+				if strings.HasPrefix(vc.compSort[c], "(Array Int ") {
+					q := vc.enc.freshName("qr")
+					vc.assume("(forall ((" + q + " Int)) (! (=> (<= " + q + " " + vc.cur(vc.entry, "alloc") + ") (= (select " + n + " " + q + ") (select " + b + " " + q + "))) :pattern ((select " + n + " " + q + "))))")
+				}
 				continue
 			}
 			vc.havocComp(st, c)
@@ -813,4 +861,178 @@ func (vc *FnVC) conjuncts(e Expr, depth int) []Expr {
 		}
 	}
 	return []Expr{e}
+}
+
+// emitAxioms adds, to the header of every query of this function, the declared axioms whose
+// spec symbols the VC uses (axioms are assumptions and are listed in the evidence). They are
+// evaluated in the entry state.
+func (vc *FnVC) emitAxioms() {
+	if vc.failed != "" {
+		return
+	}
+	if vc.usesSliceTag {
+		for id, t := range vc.prog.tagType {
+			_, isSlice := t.Underlying().(*types.Slice)
+			_, isStruct := t.Underlying().(*types.Struct)
+			if isSlice {
+				vc.enc.header = append(vc.enc.header, fmt.Sprintf("(assert (slicetag %d))", id))
+			} else if !isStruct {
+				vc.enc.header = append(vc.enc.header, fmt.Sprintf("(assert (not (slicetag %d)))", id))
+			}
+		}
+		vc.enc.header = append(vc.enc.header, "(assert (not (slicetag 0)))")
+	}
+	for round := 0; round < 3; round++ {
+		added := false
+		for _, ax := range vc.prog.cs.Axioms {
+			if ax.Lemma || vc.axiomDone[ax.Name] {
+				continue
+			}
+			relevant := false
+			for name := range vc.enc.usedSpecs {
+				if exprMentions(ax.E, name) {
+					if sd := vc.prog.cs.Specs[name]; sd != nil && sd.Body == nil {
+						relevant = true
+					}
+				}
+			}
+			if !relevant {
+				continue
+			}
+			vc.axiomDone[ax.Name] = true
+			added = true
+			env := vc.newEnv(vc.entry, vc.entry)
+			env.vars = map[string]Val{}
+			if ax.Pkg != "" {
+				if pk := vc.prog.byPath[ax.Pkg]; pk != nil {
+					env.pkg = pk.Types
+				}
+			}
+			saved := vc.stream
+			vc.stream = nil
+			var t string
+			func() {
+				defer func() {
+					if r := recover(); r != nil {
+						if u, ok := r.(unsupportedErr); ok {
+							vc.failed = "axiom " + ax.Name + ": " + u.Error()
+							return
+						}
+						panic(r)
+					}
+				}()
+				t = vc.trBool(ax.E, env)
+			}()
+			side := vc.stream
+			vc.stream = saved
+			if vc.failed != "" {
+				return
+			}
+			for _, l := range side {
+				vc.enc.header = append(vc.enc.header, l)
+			}
+			vc.enc.header = append(vc.enc.header, "(assert "+t+")")
+			vc.enc.usedAssumptions["axiom "+ax.Name+": "+ax.Src] = true
+		}
+		if !added {
+			break
+		}
+	}
+}
+
+func exprMentions(e Expr, name string) bool {
+	found := false
+	var walk func(Expr)
+	walk = func(x Expr) {
+		if x == nil || found {
+			return
+		}
+		switch n := x.(type) {
+		case *ECall:
+			if id, ok := n.Fun.(*EIdent); ok && id.Name == name {
+				found = true
+			}
+			for _, a := range n.Args {
+				walk(a)
+			}
+		case *EBin:
+			walk(n.L)
+			walk(n.R)
+		case *EUn:
+			walk(n.X)
+		case *ESel:
+			walk(n.X)
+		case *EIndex:
+			walk(n.X)
+			walk(n.I)
+		case *ESlice:
+			walk(n.X)
+			walk(n.Lo)
+			walk(n.Hi)
+		case *ECond:
+			walk(n.C)
+			walk(n.A)
+			walk(n.B)
+		case *EQuant:
+			walk(n.Body)
+		case *EOld:
+			walk(n.X)
+		case *ELet:
+			walk(n.Val)
+			walk(n.Body)
+		case *ETypeAssert:
+			walk(n.X)
+		case *ESpecScope:
+			walk(n.X)
+		}
+	}
+	walk(e)
+	return found
+}
+
+// infeasible asks the newest z3 (quantifier-free part of the assumptions, 400 ms) whether a
+// condition is unsatisfiable at this point. Only a definite `unsat` counts.
+func (vc *FnVC) infeasible(cond string) bool {
+	if cond == "false" {
+		return true
+	}
+	var sb strings.Builder
+	sb.WriteString("(set-logic ALL)\n")
+	keep := func(l string) bool {
+		return !strings.HasPrefix(l, "(assert") || !(strings.Contains(l, "(forall ") || strings.Contains(l, "(exists "))
+	}
+	for _, l := range vc.enc.header {
+		if keep(l) {
+			sb.WriteString(l + "\n")
+		}
+	}
+	for _, l := range vc.stream {
+		if keep(l) {
+			sb.WriteString(l + "\n")
+		}
+	}
+	sb.WriteString("(assert " + cond + ")\n(check-sat)\n")
+	f, err := os.CreateTemp("", "govc-feas-*.smt2")
+	if err != nil {
+		return false
+	}
+	defer os.Remove(f.Name())
+	f.WriteString(sb.String())
+	f.Close()
+	st, _, _ := runSolver(context.Background(), solvers[0], f.Name(), 400)
+	return st == "unsat"
+}
+
+// onlyFreshWrites: the function's contract names no location of this component, so every
+// write to it carries a frame obligation that forces the target to be freshly allocated.
+func (vc *FnVC) onlyFreshWrites(comp string) bool {
+	if vc.fc == nil || vc.modAll || comp == "alloc" || isGhostComp(comp) || strings.HasPrefix(comp, "Seen$") || strings.HasPrefix(comp, "Pos$") || strings.HasPrefix(comp, "G$") {
+		return false
+	}
+	for _, m := range vc.modset {
+		if m.comp == comp {
+			return false
+		}
+	}
+	return true
 }
